@@ -70,6 +70,7 @@ def run(ctx):
     R.rule("C12-R3", "escape(): emitting the escape character depends only on the current character", floor=2)
     R.rule("C12-R5", "the scanner does not recurse on its input (literal scanner, tokenizer and lex helpers form no call cycle)", floor=30)
     R.rule("C12-R6", "a line start recorded inside a scanning loop is computed from the pointer that loop advances", floor=8)
+    R.rule("C12-R7", "every operator spelling the printer can emit is known to the tokenizer (registered in getOperators)", floor=45)
     R.rule("C12-R4", "escape/unescape delimiters agree between printers and tokenizer; operator consumed by match length", floor=6)
 
     methods = [f for f in prog.methods_of("occa::lang::tokenizer_t")]
@@ -341,6 +342,7 @@ def run(ctx):
 
     escape_checks(prog, R, "C12-R3", "C12-R4")
     scanner_shape(ctx, R)
+    operator_registration(ctx, R)
 
 
 def scanner_shape(ctx, R):
@@ -407,6 +409,31 @@ def scanner_shape(ctx, R):
                  "and the first diagnostic printed on it throws std::length_error (abort)" % bt)
     if n6 < 6:
         raise AnalysisBroken("tokenizer: only %d line-start updates inside loops found" % n6)
+
+
+def operator_registration(ctx, R):
+    """R7: op::X objects are printed by their spelling; the tokenizer only recognises what getOperators() registers"""
+    from vlib.paren import operator_table
+    prog = ctx.program(["src/occa/internal/lang/operator.cpp"], thorough_all=False)
+    tab = operator_table(prog)
+    go = prog.fn("occa::lang::getOperators")
+    reg = {}
+    for c in go.walk():
+        if is_call(c) and callee(c).endswith("::add") and len(call_args(c)) == 2:
+            objs = [x.get("n") for x in walk(call_args(c)[1]) if x["k"] == "DeclRefExpr" and x.get("n", "").startswith("occa::lang::op::")]
+            keyobjs = [x.get("n") for x in walk(call_args(c)[0]) if x["k"] == "DeclRefExpr" and x.get("n", "").startswith("occa::lang::op::")]
+            for o in objs:
+                if o in tab:
+                    reg[tab[o][0]] = o
+                    R.ob("C12-R7", keyobjs == [o], go.q, "registered under its own spelling: %s" % o.split("::")[-1], go.site(c), "operators.add(op::X.str, &op::X)", nontrivial=False)
+    PSEUDO = {"()": "cast node printed by its own printer", "?:": "printed as `?` and `:`"}
+    for q, (sp, pr, t) in sorted(tab.items()):
+        if sp in PSEUDO or not sp:
+            continue
+        ok = sp in reg
+        R.ob("C12-R7", ok, "occa::lang::op::" + q.split("::")[-1], "spelling %r registered" % sp, "src/occa/internal/lang/operator.cpp",
+             "tokenized as one operator" if ok else
+             "the operator object exists (and is printed as %r) but the tokenizer does not know the spelling: it is split into shorter operators when the printed text is read back" % sp)
 
 
 def escape_checks(prog, R, r3, r4):
